@@ -92,7 +92,7 @@ type Scenario struct {
 	PubFailMask  uint32   `json:"pubfail_mask"`
 	P2WKHChange  bool     `json:"p2wkh_change,omitempty"`
 	PubFailAt    []int32  `json:"pubfail_at,omitempty"` // EVERY PublishTransaction at these heights (offsets) fails with a non-fee error, whatever the input set
-	Restart      int32    `json:"restart,omitempty"`    // >0: once the blocks with offset <= Restart are processed the node is stopped, a new sweeper+publisher is started on the same store / mempool and every input offered so far is offered again with its original params
+	Restart      int32    `json:"restart,omitempty"`    // >0: once the blocks with offset <= Restart are processed the node is stopped, a new sweeper+publisher is started on the same store / mempool and every input offered so far is offered again (budget and deadline as before; no immediate flag, no explicit starting rate)
 }
 
 // ---------------------------------------------------------------------------
@@ -543,18 +543,21 @@ func runScenario(t *testing.T, sc *Scenario, info func(string)) (obs *observatio
 			h := w.height
 			w.mu.Unlock()
 			isOffered[i] = true
-			p := sweep.Params{Budget: btcutil.Amount(s.Budget), Immediate: s.Immediate}
+			// Immediate and an explicit starting rate are set through the BumpFee
+			// RPC only and live in the sweeper's memory: the resolvers that
+			// re-offer their inputs after a restart set neither.
+			p := sweep.Params{Budget: btcutil.Amount(s.Budget), Immediate: s.Immediate && !again}
 			if sc.Delta >= 0 {
 				p.DeadlineHeight = fn.Some(h0 + sc.Delta)
 			}
-			if s.Start > 0 {
+			if s.Start > 0 && !again {
 				p.StartingFeeRate = fn.Some(chainfee.SatPerKWeight(s.Start))
 			}
 			what := "SweepInput"
 			if again {
 				what = "SweepInput (again, after the restart)"
 			}
-			w.logf("h=%d %s #%d value=%d budget=%d req_out=%d start=%d immediate=%v deadline=%d", h, what, i, s.Value, s.Budget, s.ReqOut, s.Start, s.Immediate, h0+sc.Delta)
+			w.logf("h=%d %s #%d value=%d budget=%d req_out=%d start=%d immediate=%v deadline=%d", h, what, i, s.Value, s.Budget, s.ReqOut, int64(p.StartingFeeRate.UnwrapOr(0)), p.Immediate, h0+sc.Delta)
 			rc, err := sw.SweepInput(in, p)
 			if err != nil {
 				panic(err)
@@ -1777,7 +1780,7 @@ func spaces(thorough bool) []space {
 		type env struct{ est, mx int64 }
 		envs := []env{{estIn, 1000}, {relay, 3}}
 		if thorough {
-			envs = []env{{estIn, 1000}, {relay, 3}, {relay, 1000}, {estIn, 3}, {10_000_000, 1000}}
+			envs = []env{{estIn, 1000}, {relay, 3}, {relay, 1000}}
 		}
 		seqTo := func(a, b int32) []int32 {
 			var o []int32
@@ -1809,8 +1812,11 @@ func spaces(thorough bool) []space {
 					if k+2 <= d {
 						fs = append(fs, fault{failAt: []int32{k, k + 1, k + 2}})
 					}
-					for r := int32(1); r < d; r++ {
-						fs = append(fs, fault{failAt: []int32{k}, restart: r})
+					// a failing block right before / at / right after the restart
+					for r := k - 1; r <= k+1; r++ {
+						if r >= 1 && r < d {
+							fs = append(fs, fault{failAt: []int32{k}, restart: r})
+						}
 					}
 				}
 			}
@@ -1876,7 +1882,7 @@ func spaces(thorough bool) []space {
 		d3 := []int32{6}
 		if thorough {
 			orders = append(orders, [3]InSpec{big, small, mid}, [3]InSpec{small, big, mid}, [3]InSpec{mid, small, big})
-			ats = [][2]int32{{0, 1}, {0, 2}, {0, 3}, {1, 1}, {1, 2}, {1, 3}, {2, 2}, {2, 4}}
+			ats = [][2]int32{{0, 1}, {0, 2}, {1, 1}, {1, 2}, {1, 3}, {2, 4}}
 			d3 = []int32{5, 7}
 		}
 		for _, tr := range orders {
@@ -2032,7 +2038,13 @@ func TestC18Pipe(t *testing.T) {
 		}()
 	}
 	exhaustive := true
+	only := os.Getenv("VERIF_C18_SPACES") // development aid: comma-separated space letters, e.g. "H,G"
 	for _, sp := range spaces(run.Thorough()) {
+		if only != "" && !strings.Contains(","+only+",", ","+strings.SplitN(sp.name, ":", 2)[0]+",") {
+			exhaustive = false
+			capHit = append(capHit, "space "+sp.name+" deselected by VERIF_C18_SPACES")
+			continue
+		}
 		stopped := false
 		n := 0
 		sp.gen(func(sc Scenario) {
@@ -2071,7 +2083,7 @@ func TestC18Pipe(t *testing.T) {
 	run.Assumptions = append(run.Assumptions,
 		"publisher: inputs are never spent/confirmed during a run (worst case for the ramp); witnesses are dummies of exactly the estimated size, so tx weight == estimated weight",
 		"publisher: goroutine interleavings inside one block handler are not enumerated; the sweeper is run to quiescence (synctest.Wait) before the publisher receives the same block",
-		"publisher: a restart keeps the sweeper store and the mempool (the successfully published txs no later successful publish conflicts with) and re-offers every input with its original params, as the contract resolvers do; in-memory retry rates are lost",
+		"publisher: a restart keeps the sweeper store and the mempool (the successfully published txs no later successful publish conflicts with) and re-offers every input with its original budget and deadline but without immediate flag and explicit starting rate (both are set only through the BumpFee RPC, never by the contract resolvers that re-offer inputs at startup); in-memory retry rates are lost",
 		"publisher: a below-dust remainder that cannot become a change output is allowed to go to fees on top of MaxFeeRate x weight (the property demands both 'no dust output' and 'spend all inputs'); such cases are counted in outcome_classes",
 	)
 	if code := run.Finish(cov); code != 0 {
